@@ -528,6 +528,23 @@ func c02DataAttr(c *Ctx) {
 			case idx.Int64() == 0:
 				return relang.Union(relang.Inter(L, noSep), relang.Concat(relang.Inter(L, noSep), lit, all)), ""
 			}
+		case *ssa.Extract: // before / after of strings.Cut(val, sep)
+			if ct := isCallTo(v.Tuple, "strings.Cut"); ct != nil && ct.Common().Args[0] == val {
+				if sep, ok := constString(ct.Common().Args[1]); ok && sep != "" && !selfBorder(sep) {
+					noSep := hasSep(sep).Complement()
+					lit := relang.Literal(a, sep)
+					switch v.Index {
+					case 0: // text before the first separator, or the whole string when there is none
+						return relang.Union(relang.Inter(L, noSep), relang.Concat(relang.Inter(L, noSep), lit, all)), ""
+					case 1: // text after the first separator, "" when there is none
+						d := relang.Concat(noSep, lit, L)
+						if L.Accepts("") {
+							d = relang.Union(d, noSep)
+						}
+						return d, ""
+					}
+				}
+			}
 		case *ssa.Call:
 			if tp := isCallTo(v, "strings.TrimPrefix"); tp != nil && tp.Common().Args[0] == val {
 				if p, ok := constString(tp.Common().Args[1]); ok {
@@ -601,6 +618,16 @@ func c02DataAttr(c *Ctx) {
 						case k.Int64() == 1:
 							return noSep, ""
 						case k.Int64() == 2 && n == 2:
+							return hasSep(sep), ""
+						}
+					}
+				}
+			}
+			// found result of strings.Cut(val, sep)
+			if at.Kind == "val" {
+				if ex, ok := at.Resolve(at.X).(*ssa.Extract); ok && ex.Index == 2 {
+					if ct := isCallTo(ex.Tuple, "strings.Cut"); ct != nil && ct.Common().Args[0] == val {
+						if sep, ok := constString(ct.Common().Args[1]); ok && sep != "" {
 							return hasSep(sep), ""
 						}
 					}
